@@ -343,6 +343,10 @@ func condMapSet(m map[string]any, key string, value any, opt *Options) {
 		if opt.OmitEmpty && tv == 0 {
 			return
 		}
+	case int, int8, int16, int32, uint, uint8, uint16, uint32, uint64, float32, float64:
+		if opt.OmitEmpty && reflect.ValueOf(tv).IsZero() {
+			return
+		}
 	}
 	m[key] = value
 }
